@@ -18,7 +18,7 @@ def impl():
     from asl_workflow_engine import store as S
     import redis as fake_redis
     import logging
-    logging.getLogger("asl_workflow_engine").setLevel(logging.CRITICAL)
+    logging.disable(logging.CRITICAL)      # the stores log every operation; nothing of it is observed
     return S, fake_redis
 
 
@@ -511,10 +511,10 @@ def gen_cases(chk, quick):
     chk.cov["streams"]["corpus"] = len(cases)
     pc = placement_cases()
     if quick:
-        pc = rng.sample(pc, min(len(pc), 2500))
+        pc = rng.sample(pc, min(len(pc), 6000))
     cases += pc
     chk.cov["streams"]["redis.delivery_placements"] = len(pc)
-    n = 2500 if quick else 120000
+    n = 12000 if quick else 150000
     for _ in range(n):
         r = rng.random()
         ln = rng.randint(1, 14)
@@ -601,7 +601,7 @@ def check_cases(chk, S, fr, cases):
             if cj(outs) != cj(m_open):
                 first = next((j for j, (x, y) in enumerate(zip(outs, m_open)) if cj(x) != cj(y)), None)
                 chk.report("impl-differs-from-model", case, impl=outs, model=mo,
-                           law="answers of the mapping operations and the final file / keyspace equal the model's (first difference at step %s)" % first,
+                           law=["answers of the mapping operations and the final file / keyspace equal the model's (first difference at step %s)" % first] + laws[:3],
                            classify=None)
                 continue
             if laws:
